@@ -63,7 +63,11 @@ Factors == << [n |-> "backend",      v |-> 3],   \* 1 -c, 2 -python, 3 -python-n
               \* an inheritance chain that crosses the library boundary (XPuppy : XDog in library B, XDog :
               \* XAnimal both in library A; with three libraries XPup3 : XPuppy in library C): 1 none,
               \* 2 nothing else in B names the grand-parent, 3 B also names the grand-parent
-              [n |-> "f_xinherit",   v |-> 3] >>
+              [n |-> "f_xinherit",   v |-> 3],
+              \* published data members of every shape that decides whether a getter / setter is synthesised:
+              \* arrays (plain, of const elements, through a typedef, two-dimensional), const, reference,
+              \* static const, mutable, bit-field, pointer and enum members
+              [n |-> "f_datamembers", v |-> 2] >>
 NF == Len(Factors)
 FV == {<<f, v>> : f \in 1..NF, v \in 1..3} \cap {p \in (1..NF) \X (1..3) : p[2] <= Factors[p[1]].v}
 
